@@ -62,60 +62,90 @@ def r1_single_state(ctx):
 def r2_reread(ctx):
     r = Rule("C16.R2", "t! re-reads the context inside the reactive closure",
              "`every reactive accessor created before or after`: a view built from keys read once, outside the closure, keeps the "
-             "locale it was created with", floor=3)
-    fn = ctx.ast.fn(TM, "wrapp", impl_self="OutputType")
-    if fn is None:
-        r.missing("OutputType::wrapp")
+             "locale it was created with", floor=5)
+    from rules import absint
+    from rules.absint import AEval, A, C as K, TOK, CF
+    ast = ctx.ast
+    fn = ast.fn(TM, "t_macro_inner")
+    gk = ast.fn(TM, "get_key", impl_self="InputType")
+    if fn is None or gk is None:
+        r.missing("t_macro_inner / InputType::get_key")
         return r
-    qs = [flat(tok_text(q["tokens"])) for q in xquotes(fn.body)]
-    view = [q for q in qs if "move||" in q]
-    ok = bool(view) and all(re.match(r"^\{#params(leptos_i18n::__private::future_renderer\()?move\|\|\{#clone_values#ts\}\)?\}$", q) for q in view)
-    if ok:
-        r.inst("wrapp(View)", "{ #params  move || { #clone_values #ts } } : the accessor chain (#ts) is inside the closure in %d template(s)" % len(view))
+    funcs = absint.file_funcs(ast, TM, impl_self="OutputType")
+    funcs = {k: v for k, v in funcs.items() if v is not fn.node and k not in ("t_macro_inner", "get_key", "t_macro")}
+
+    def closure_span(text):
+        """(start, end) of the brace group that follows `move ||`"""
+        i = text.find("move ||")
+        if i < 0 or text.find("move ||", i + 1) >= 0:
+            return None
+        j = text.find("{", i)
+        d = 0
+        for k2 in range(j, len(text)):
+            if text[k2] == "{":
+                d += 1
+            elif text[k2] == "}":
+                d -= 1
+                if d == 0:
+                    return (j, k2)
+        return None
+    n_ok = 0
+    for inter in (K("Some", ("list", (A("I0"),))), K("None")):
+        for cfgv in (True, False):
+            ev = AEval(funcs=funcs, builtins={
+                "get_key": lambda rr, aa: TOK("GETKEY"),
+                "param": lambda rr, aa: ("tuple", (TOK("ARGNAME"), TOK("ARGVALUE"))),
+                "get_ident": lambda rr, aa: K("Some", TOK("ARGNAME"))})
+            ev.cfg = lambda t, c=cfgv: c
+            v = ev.run_fn(fn, [CF("ParsedInput", context=A("CTX"), keys=A("KEYS"), interpolations=inter), A("IT"), K("View")])
+            what = "t!(.. %s) [dynamic_load && !ssr = %s]" % ("with arguments" if inter[1] == "Some" else "without arguments", cfgv)
+            if isinstance(v, str) or v[0] != "tok":
+                r.viol("R2:t_macro_inner#eval", "the expansion of %s cannot be evaluated: %s" % (what, v if isinstance(v, str) else absint.fmt(v)), file=TM, line=fn.line)
+                continue
+            text = v[1]
+            span = closure_span(text)
+            occ = [m.start() for m in re.finditer("GETKEY", text)]
+            if span is None:
+                r.viol("R2:wrapp#view", "the View expansion of %s is not one `move ||` closure: %s" % (what, text[:160]), file=TM, line=fn.line)
+            elif not occ or any(not (span[0] < o < span[1]) for o in occ):
+                r.viol("R2:t_macro_inner", "the context read (get_key) is not (only) inside the emitted closure for %s: %s" % (what, text[:200]), file=TM, line=fn.line)
+            else:
+                n_ok += 1
+                r.inst(what, "evaluated expansion: the accessor read `get_key` occurs only inside the emitted `move || { .. }`")
+    got = {}
+    for it in ("Context", "Untracked", "Locale"):
+        v = AEval(funcs={}).run_fn(gk, [K(it), TOK("INPUT"), TOK("KEYS")])
+        got[it] = flat(v[1]) if not isinstance(v, str) and v[0] == "tok" else str(v)
+    if got.get("Context") == "leptos_i18n::I18nContext::get_keys(INPUT).KEYS()":
+        r.inst("InputType::Context", "tracked read: I18nContext::get_keys(<input>).<keys>()")
     else:
-        r.viol("R2:wrapp#view", "the accessor chain is not (only) inside the emitted closure: %s" % view, file=fn.file, line=fn.line)
-    fn = ctx.ast.fn(TM, "t_macro_inner")
-    t = flatp(show(fn.body)) if fn else ""
-    qs = [flat(tok_text(q["tokens"])) for q in xquotes(fn.body)] if fn else []
-    if any(q.startswith("{let_builder=#get_key.#builder_fn();") for q in qs) and "let(#(#keys,)*)=(#(#values,)*);" in qs:
-        r.inst("t_macro_inner", "`#get_key` is part of the inner block (#ts); only `let (keys..) = (values..)` is hoisted as #params")
-    else:
-        r.viol("R2:t_macro_inner", "get_key is no longer part of the re-evaluated block", file=TM)
-    fn = ctx.ast.fn(TM, "get_key", impl_self="InputType")
-    qs = [flat(tok_text(q["tokens"])) for q in xquotes(fn.body)] if fn else []
-    if "leptos_i18n::I18nContext::get_keys(#input).#keys()" in qs:
-        r.inst("InputType::Context", "tracked read: I18nContext::get_keys")
-    else:
-        r.viol("R2:get_key#Context", "t! does not read the context with the tracked get_keys", file=TM)
+        r.viol("R2:get_key#Context", "t! does not read the context with the tracked get_keys: %s" % got.get("Context"), file=TM)
     return r
 
 
 def r3_isolation(ctx, prog):
     r = Rule("C16.R3", "each context owns a fresh signal; the parent is read once, untracked",
              "`a sub-context and its parent never change each other's locale once created`", floor=5)
-    b = prog.body("leptos_i18n::context::init_context_inner")
-    if b is None:
+    from rules.common import msum
+    got = msum(prog, r"context::init_context_inner$", closures=True)
+    SIG = "RwSignal::new(GetUntracked::get_untracked(p2))"
+    if not got:
         r.missing("init_context_inner")
     else:
-        news = M.call_blocks(b, r"RwSignal<T>::new$|RwSignal::<T>::new$|reactive_graph::signal::RwSignal::<T>::new$|RwSignal<.*>::new$")
-        aggs = [(i, s) for i, j, s in b.aggregates("context::I18nContext")]
-        ok = False
-        from mirlib import backward_slice
-        for (i, s) in aggs:
-            op = s["rv"]["ops"][s["rv"]["fields"].index("locale_signal")]
-            ls, defs = backward_slice(b, op_place(op)["l"])
-            if any(dj == "term" and re.search(r"RwSignal.*::new$", callee_name(ds) or "") for (di, dj, ds) in defs):
-                ok = True
-        if ok and len(news) == 1:
-            r.inst("init_context_inner", "I18nContext { locale_signal: RwSignal::new(initial_locale.get_untracked()) } - a new signal per call")
+        name, ret, eff = got[0]
+        b = prog.body(name)
+        ret = (ret or "").replace(SIG, "SIG")
+        eff = sorted(e.replace(SIG, "SIG") for e in eff)
+        if ret == "I18nContext#I18nContext(SIG, PhantomData#PhantomData())":
+            r.inst("init_context_inner", "returns I18nContext { locale_signal: RwSignal::new(initial_locale.get_untracked()) } - a new signal per call")
         else:
-            r.viol("R3:init_context_inner#fresh-signal", "the context is not built around a signal created in this call (RwSignal::new calls: %d)" % len(news), file=b.file, line=b.line)
-    fn = ctx.ast.fn(C, "init_context_inner")
-    t = flatp(show(fn.body)) if fn else ""
-    if has(t, "letre=RenderEffect::newmove|_|{letl=initial_locale.get;locale_signal.setl}") and has(t, "Effect::new_isomorphicmove|_|{letnew_lang=locale_signal.get;set_lang_cookie.setSomenew_lang}"):
-        r.inst("init_context_inner#effects", "initial memo -> signal; signal -> cookie (no other writer)")
-    else:
-        r.viol("R3:init_context_inner#effects", "synchronisation effects changed", file=C)
+            r.viol("R3:init_context_inner#fresh-signal", "the context is not built around a signal created in this call: returns `%s`" % ret, file=b.file, line=b.line)
+        want = sorted(["prelude::on_cleanup(|..|{mem::drop(RenderEffect::new(|..|{Set::set(SIG, Get::get(p2)); '()'}))})",
+                       "Effect::new_isomorphic(|..|{Set::set(p1, Option#Some(Get::get(SIG))); '()'})"])
+        if eff == want:
+            r.inst("init_context_inner#effects", "initial memo -> signal (kept until cleanup); signal -> cookie; no other writer of the signal")
+        else:
+            r.viol("R3:init_context_inner#effects", "synchronisation effects changed: %s" % eff, file=b.file, line=b.line)
     callers = sorted({bb.name.split("::")[-1] for (bb, i, t2) in prog.callers_of(r"context::init_context_inner$")})
     if callers == ["init_i18n_context_with_options", "init_subcontext_with_options"]:
         r.inst("callers of init_context_inner", ", ".join(callers))
@@ -135,12 +165,43 @@ def r3_isolation(ctx, prog):
             r.inst("init_subcontext_with_options#parent", "parent read once with get_locale_untracked, outside the Memo")
         else:
             r.viol("R3:init_subcontext_with_options#parent", "the parent context is read reactively: the sub-context would follow its parent", file=C)
-    fn = ctx.ast.fn(C, "run_as_children")
-    t = flatp(show(fn.body)) if fn else ""
-    if has(t, 'letowner=Owner::current.expect"nocurrentreactiveOwnerfound".child;letchildren=owner.with||{provide_contextctx;children};OwnedView::new_with_ownerchildren,owner'):
-        r.inst("run_as_children", "sub-context provided inside owner.child(): invisible to the parent's scope")
+    # the sub-context is provided inside a child owner: MIR of run_as_children (and the closures it owns)
+    rb = prog.body("leptos_i18n::context::run_as_children")
+    if rb is None:
+        r.missing("run_as_children")
     else:
-        r.viol("R3:run_as_children", "the sub-context is not provided in a child owner", file=C)
+        from mirlib import backward_slice
+        root = M._root(rb.name)
+        owned = [bb for n2, bb in sorted(prog.bodies.items()) if bb.crate == rb.crate and M.owner_of(prog, n2) == root]
+        childs = [(bb, i, t) for bb in owned for i, t in bb.calls() if (callee_name(t) or "").endswith("Owner::child")]
+        withs = [(bb, i, t) for bb in owned for i, t in bb.calls() if (callee_name(t) or "").endswith("Owner::with")]
+        provs = [(bb, i, t) for bb in owned for i, t in bb.calls() if (callee_name(t) or "").endswith("provide_context")]
+        views = [(bb, i, t) for bb in owned for i, t in bb.calls() if (callee_name(t) or "").endswith("::new_with_owner")]
+
+        def from_child(bb, op):
+            p = op_place(op)
+            if p is None:
+                return False
+            ls, defs = backward_slice(bb, p["l"])
+            return any(dj == "term" and (callee_name(ds) or "").endswith("Owner::child") for (di, dj, ds) in defs)
+        why = None
+        if len(childs) != 1 or len(withs) != 1 or len(provs) != 1:
+            why = "expected one Owner::child, one Owner::with and one provide_context (found %d, %d, %d)" % (len(childs), len(withs), len(provs))
+        elif not from_child(withs[0][0], withs[0][2]["args"][0]):
+            why = "Owner::with is not run on the child owner created here"
+        elif "{closure" not in provs[0][0].name or provs[0][0] is withs[0][0]:
+            why = "provide_context is not called inside the closure run by the child owner"
+        elif not any(from_child(bb, t["args"][1]) for bb, i, t in views if len(t["args"]) > 1):
+            why = "the view is not tied to the child owner (OwnedView::new_with_owner)"
+        else:
+            pb, pi, pt = provs[0]
+            kids = [i for i, t in pb.calls() if re.search(r"FnOnce::call_once$|Fn::call$|FnMut::call_mut$", callee_name(t) or "")]
+            if not kids or not all(M.must_pass(pb, {pi}, {k}) for k in kids):
+                why = "the children are not rendered after provide_context in that closure"
+        if why is None:
+            r.inst("run_as_children", "Owner::current().child() -> child.with(|| { provide_context(ctx); children() }) -> OwnedView::new_with_owner(_, child): the sub-context is invisible to the parent's scope")
+        else:
+            r.viol("R3:run_as_children", "the sub-context is not provided in a child owner: " + why, file=rb.file, line=rb.line)
     return r
 
 
